@@ -58,6 +58,7 @@ fn n_imp_funcs(a: &AMod) -> usize { a.imports.iter().filter(|i| matches!(i.2, AI
 fn is_marker(out: &amod::ABody, j: usize) -> bool {
     out.ops.get(j).and_then(|o| o.0.as_deref()) == Some(&format!("WOp (W_I32Const ({})%Z)", MARKER)) && out.ops.get(j + 1).map(|o| o.2) == Some("Drop")
 }
+pub fn align_pub(inp: &amod::ABody, out: &amod::ABody, inserted: &mut Vec<usize>) -> Option<Vec<Option<usize>>> { align(inp, out, inserted) }
 fn align(inp: &amod::ABody, out: &amod::ABody, inserted: &mut Vec<usize>) -> Option<Vec<Option<usize>>> {
     let mask = live_mask(&inp.ops); let mut map = vec![None; inp.ops.len()]; let mut j = 0;
     for (k, o) in inp.ops.iter().enumerate() { if !mask[k] { continue; }
